@@ -7,6 +7,10 @@ COMMON_NOTE = ('Trusted: Coq 8.16.1 kernel (no native_compute; vm_compute only i
                'extraction with ExtrOcamlBasic only (no Extract Constant; nat stays Peano), OCaml 4.13.1 and ocaml/*.ml; the Rust harness and lib/*.py. '
                'Axioms (Print Assumptions on every property theorem): none - closed under the global context. ')
 CLAIMS = {
+ 'C15': {
+  'text': 'Machine-checked theorems over ALL finite operation trees (induction over the tree): the events of a tree are exactly those of its send/apply leaves, each produced in the context determined by the path to that leaf alone (siblings, clones and forks do not interfere); an error sent or applied at the end of a path carries exactly the transforms active on that path (pushes not made under a lock, none before a raw), innermost first, each once; pushes onto a locked context are ignored. Contexts are modelled as values; that the real Rc-shared cells behave like values is what the correspondence run checks: the extracted model and the real Context/raw/unrecoverable/send_error/apply_context are run on thousands of seeded random trees and an exhaustive wrapper family, with tagging transforms, and an independent python reading of the property re-checks the implementation\'s events.',
+  'ref': 'DESIGN.md 4 C15', 'note': 'Modelled, not verified: context.rs, result.rs apply_context, control.rs raw/unrecoverable. Value model of contexts (no store): sound because after the repair no library code mutates a shared cell; take_*/replace_* by user code are outside the model.',
+  'technique': 'Rocq proof (induction over operation trees, path-based spec) + extracted-model/implementation correspondence'},
  'C17': {
   'text': 'Machine-checked theorems (closed under the global context) that enclose/intersect/union/minus/contains/intersects/adjacent of the Gallina model of span.rs are byte-interval algebra for ANY four positions of a chain, and that the canonical positions of any text form a chain (unbounded in text, positions, metrics); plus a correspondence run that executes the extracted model and the real Span code on every pair of spans of every small text and diffs all results, with an independent python byte-set oracle on the implementation\'s answers.',
   'ref': 'DESIGN.md 4 C17', 'note': 'Modelled, not verified: span.rs Span/Few operations. Correspondence exhaustive over texts up to the tier bound.',
